@@ -117,6 +117,7 @@ theorem le_refl (a : Value N) : Value.le a a = true := by
 theorem le_of_gt {a b : Value N} (h : cmp a b = .gt) : Value.le b a = true := by
   rw [le_iff, cmp_swap a b, h]; simp [Ordering.swap]
 
+omit [LawfulNum N] in
 theorem le_of_not_gt {a b : Value N} (h : ¬ cmp a b = .gt) : Value.le a b = true :=
   (le_iff a b).2 h
 
